@@ -351,20 +351,32 @@ func (c *Ctx) ruleReconnectResumes(rr *RuleRep) {
 	}
 	okSend := cerr != nil
 	if cerr != nil {
-		fe := nonNilEdges(rc, cerr)
-		if len(fe) != 1 {
+		fe := nonNilEdgesRaw(rc, cerr)
+		if len(fe) == 0 {
 			okSend = false
 		} else {
-			// every close reachable through the failure edge is preceded by the send
-			first := fe[0].B.Succs[fe[0].K].Instrs[0]
-			if !isSendCE(first) {
-				if _, found := CanReach(rc, first, isCloseCE, PathQ{BlockInstr: isSendCE}); found {
-					okSend = false
+			isFail := func(b *ssa.BasicBlock, k int) bool {
+				for _, e := range fe {
+					if e.B == b && e.K == k {
+						return true
+					}
 				}
+				return false
 			}
-			// no send reachable when err == nil
-			q := PathQ{BlockEdge: func(b *ssa.BasicBlock, k int) bool { return b == fe[0].B && k == fe[0].K }}
-			if _, found := CanReach(rc, cliConn, isSendCE, q); found {
+			isOK := func(b *ssa.BasicBlock, k int) bool {
+				for _, e := range fe {
+					if e.B == b && 1-e.K == k {
+						return true
+					}
+				}
+				return false
+			}
+			// failed (every test of the error takes its non-nil edge): no close without the send before it
+			if _, found := CanReach(rc, cliConn, isCloseCE, PathQ{BlockInstr: isSendCE, BlockEdge: isOK}); found {
+				okSend = false
+			}
+			// succeeded (every test takes its nil edge): no send
+			if _, found := CanReach(rc, cliConn, isSendCE, PathQ{BlockEdge: isFail}); found {
 				okSend = false
 			}
 		}
